@@ -151,6 +151,9 @@ structure Variant where
   /-- `C14-namespace-alias-collect-import-tree.diff`: `Stylesheet::postConstruction` first collects the aliases of the whole
   import tree -/
   aliasCollectFirst : Bool := false
+  /-- `C14-result-tree-fragment-own-namespace-scope.diff`: `pushOutputContext` starts an isolated scope of the result
+  namespaces stack (a result tree fragment does not see what is declared where it is built) -/
+  rtfIsolatedNs : Bool := false
 deriving Repr, DecidableEq
 
 /-- the part of `XSLTEngineImpl` the property is about -/
